@@ -51,6 +51,14 @@ impl Minimizer {
     /// The minimization is done using the subset construction algorithm.
     /// The method takes a DFA and returns a minimized DFA.
     pub(crate) fn minimize(dfa: CompiledDfa) -> CompiledDfa {
+        #[cfg(feature = "verif")]
+        if crate::verif::recorder_enter() {
+            // Record the automaton before and after the (unchanged) minimization below.
+            let input = crate::verif::dump_dfa(&dfa);
+            let output = Self::minimize(dfa);
+            crate::verif::recorder_push(input, crate::verif::dump_dfa(&output));
+            return output;
+        }
         trace!("Minimize DFA ----------------------------");
         trace!("Initial DFA:\n{}", dfa);
         // The transitions of the DFA in a convenient data structure.
